@@ -38,12 +38,16 @@ def compositions(n):
         yield parts
 
 
-def write_flat(d, A, parts, offset=0, ext='.dat', stem='rec'):
+def write_flat(d, A, parts, offset=0, ext='.dat', stem='rec', same_name=False):
     paths = []
     i = 0
     for k, p in enumerate(parts):
         # t9, t10, t11 ...: lexicographic order differs from the order in which the parts are given
         path = Path(d) / ('%s_t%d%s' % (stem, 9 + k, ext))
+        if same_name:
+            # Open Ephys style: recording<k>/continuous.dat - every part has the same base name
+            (Path(d) / ('recording%d' % (9 + k))).mkdir(exist_ok=True)
+            path = Path(d) / ('recording%d' % (9 + k)) / ('continuous' + ext)
         with open(path, 'wb') as f:
             f.write(bytes((7 * j + 1) % 256 for j in range(offset)))
             f.write(np.ascontiguousarray(A[i:i + p]).tobytes())
